@@ -82,6 +82,15 @@ fn main() {
         println!("replaying {} :: {}", v["signature"], v["summary"].as_str().unwrap_or(""));
         v["case"].clone()
     });
+    // a recorded precondition failure has no single input: replaying it re-runs the exploration
+    let replay_case = match replay_case {
+        Some(c) if c["kind"] == "subject_panic" => {
+            println!("the recorded case is an aborted exploration ({}); re-running the exploration", c["message"]);
+            ctx.replaying = false;
+            None
+        }
+        o => o,
+    };
 
     // machinery failures (harness panics) must never look like a verdict: exit code 2
     let r = std::panic::catch_unwind(std::panic::AssertUnwindSafe(|| match prop.as_str() {
@@ -116,7 +125,18 @@ fn main() {
     }));
     match r {
         Ok(code) => std::process::exit(code),
-        Err(_) => {
+        Err(payload) => {
+            // a panic whose message starts with "SUBJECT:" states a precondition of the exploration that only
+            // the code under test can break (a valid family program is rejected, a loader run fails ...): on
+            // the unchanged tree it never fires; on a changed tree it is a verdict about that tree, not a
+            // harness failure, and the exploration stops there
+            let msg = payload.downcast_ref::<String>().cloned().or_else(|| payload.downcast_ref::<&str>().map(|s| s.to_string())).unwrap_or_default();
+            if let Some(i) = msg.find("SUBJECT:") {
+                let m = msg[i..].chars().take(600).collect::<String>();
+                ctx.fail(mcx::json!({"kind": "exploration_precondition_broken_by_the_code_under_test"}), m.clone(), mcx::json!({"kind": "subject_panic", "message": m}));
+                let code = ctx.finish("exploration", mcx::json!({"aborted": true, "exhaustive": false, "bounds": "exploration aborted: a precondition that only the code under test can break does not hold"}), &[]);
+                std::process::exit(code)
+            }
             eprintln!("MACHINERY FAILURE: harness panicked while checking {prop} (not a verdict)");
             std::process::exit(2)
         }
